@@ -80,7 +80,8 @@ PROOFS = [
     Proof('handoff/wake_sleeper', 'sched.c', 'h_prelocked', kind='L', min_obligations=4),
     Proof('ticket_spinlock', 'mutex.c', 'h_ticket', kind='L', min_obligations=3),
 ]
-NATIVES = []
+NATIVES = [Native('native', 'native.cpp', args_quick=[400], args_thorough=[20000], timeout=3000, link_photon=True, cxxflags=['-fpermissive'])]
+REPLAY = 'native'
 AUX_VIOLATION = True    # no native oracle: a failing loop-rule obligation is reported (no-failing-input-found), see DESIGN §4
 TRUSTED = ['cbmc 6.11.0', 'lowering rules of specs/C01/spec.py']
 NOT_DECIDED = ['mutual exclusion of the photon mutex across sleeping waiters as a whole-history property',
